@@ -1117,7 +1117,9 @@ class HeteroscedasticConditional(conditional.ConditionalGaussianPDF):
     def _update_omega_star(self, p_x: pdf.GaussianPDF, y: Float[Array, "N Dy"], W_i: Float[Array, "Dx+1"], a_i: Float[Array, "Dy"], omega_star: Float[Array, "N"]) -> Float[Array, "N"]:      
         quadratic_integral, quartic_integral = self._lower_bound_integrals(p_x=p_x, y=y, W_i=W_i, a_i=a_i, omega_star=omega_star, compute_fourth_order=True)
         # If the projected residual vanishes identically the bound does not depend on omega: keep it.
-        is_positive = quadratic_integral > 0.
+        # (Both integrals are non-negative in exact arithmetic; a fourth-order integral that rounds to zero or
+        # slightly below would give omega = 0 or sqrt of a negative number, i.e. NaN.)
+        is_positive = jnp.logical_and(quadratic_integral > 0., quartic_integral > 0.)
         ratio = quartic_integral / jnp.where(is_positive, quadratic_integral, 1.)
         omega_star = jnp.where(is_positive, jnp.sqrt(ratio), omega_star[None])[0]
         return omega_star
@@ -1428,8 +1430,11 @@ class HeteroscedasticReLUConditional(HeteroscedasticConditional):
     
     def _update_omega_star(self, p_x: pdf.GaussianPDF, y: Float[Array, "N Dy"], W_i: Float[Array, "Dx+1"], a_i: Float[Array, "Dy"], omega_star: Float[Array, "N"]) -> Float[Array, "N"]:      
         cubic_integral, quartic_integral = self._lower_bound_integrals(p_x=p_x, y=y, W_i=W_i, a_i=a_i, omega_star=omega_star, compute_fourth_order=True)
-        cubic_integral= jnp.where(cubic_integral != 0., cubic_integral, 1.)
-        omega_star = (quartic_integral / cubic_integral)[0]
+        # Both integrals are non-negative in exact arithmetic. When the unit is (almost) switched off they are at rounding
+        # level and may come out zero or negative: keep the previous iterate then (the bound holds for every omega >= 0).
+        is_positive = jnp.logical_and(cubic_integral > 0., quartic_integral > 0.)
+        ratio = quartic_integral / jnp.where(is_positive, cubic_integral, 1.)
+        omega_star = jnp.where(is_positive, ratio, omega_star[None])[0]
     
         return omega_star
 
